@@ -249,6 +249,14 @@ class Check:
         known_lines = []
         rdir = os.path.join(ROOT, "replays", self.pid)
         n = 0
+        # replay files of an earlier run with the same tier and seed would be mistaken for findings of this run
+        if os.path.isdir(rdir) and not self.replaying:
+            for fn in os.listdir(rdir):
+                if fn.startswith(f"{self.tier}-{self.seed}-") and fn.endswith(".json"):
+                    try:
+                        os.remove(os.path.join(rdir, fn))
+                    except OSError:
+                        pass
 
         def write_replay(obj):
             nonlocal n
